@@ -148,12 +148,11 @@ theorem gpc_exact_validate (E : Env) (X Y Z : Nat) (hE : EnvPy E X Y Z) (S : Lea
     (m : M) (g : VC) (hg : M.Good (PyG E) m)
     (hvars : ∀ n ∈ M.vars m, pyNames.contains n = true)
    
-    (hne : ∀ d, dnf defaultFuel [] m = .ok d → d ≠ .empty)
     (h : gpc m = .ok g) : M.validate E m = .ok (g.allowsPlain (pyV X Y Z)) := by
   have hSp := splitSound_holds X Y Z
   rw [M.validate_eq_sem E m (pyG_evaluable E m hg)]
   congr 1
-  refine gpc_exact S X Y Z m g hg hvars (fun l hl hk => leafClause_of_comp E X Y Z hE l hl.1 hl.2.1 hk) hSp hne ?_ h
+  refine gpc_exact S X Y Z m g hg hvars (fun l hl hk => leafClause_of_comp E X Y Z hE l hl.1 hl.2.1 hk) hSp ?_ h
   intro d hd l hl
   have hv := dnf_vars S (fun l hl => hl.2.2) _ _ m d hg hd l.name (leaf_name_mem_vars d l hl)
   exact convKey_of_pyNames (hvars _ hv)
